@@ -9,11 +9,26 @@
 (* declared range (min/max) edits change, and the builtin                  *)
 (* default_library with a per-subproject override sub:default_library.     *)
 (*                                                                          *)
+(* Deprecated options (Build-options.md "Deprecated options"): options     *)
+(* replaced by an option with another name (`deprecated: 'newname'` -      *)
+(* "setting a value on the deprecated option will set the value on both    *)
+(* the old and new names") of the combo, boolean, string and array kinds   *)
+(* and the documentation's boolean-replaced-by-a-feature example, options  *)
+(* with a value map (`deprecated: {'a': 'c'}`), a fully deprecated option  *)
+(* (`deprecated: true`) and a deprecated choice (`deprecated: ['a']`) -    *)
+(* the last two only warn.  The builtin pair buildtype / debug             *)
+(* (Builtin-options.md: "-Dbuildtype=debugoptimized is the same as         *)
+(* -Ddebug=true -Doptimization=2") behaves like a renamed pair: giving the *)
+(* first also gives the second.  For such pairs the ORDER in which the     *)
+(* user gave the two matters; the state remembers which came last.         *)
+(*                                                                          *)
 (* Commands (Commands.md: setup / configure; Build-options.md): Setup(D),  *)
 (* Configure(D) = `meson configure -D..`, ConfigureU(k) = `-U sub:..`,     *)
 (* Reconfigure(D) = `setup --reconfigure -D..`, Wipe = `setup --wipe`,     *)
-(* Edit(e) of the option file, and failing variants (invalid value,        *)
-(* error() in meson.build) that must leave the persisted state untouched.  *)
+(* Edit(e) of the option file (including deleting and re-creating it), and *)
+(* failing variants (invalid value, error() in meson.build, a failing      *)
+(* meson.add_postconf_script() - the latest point at which a setup can     *)
+(* fail) that must leave the persisted state untouched.                    *)
 (*                                                                          *)
 (* Persisted state: per option its value (and for popt the choices it was  *)
 (* last read with), the per-subproject overrides, and the recorded command *)
@@ -25,6 +40,7 @@
 EXTENDS Integers, Sequences, FiniteSets, TLC
 
 None == "-"
+Unknown == "?"                           \* a projected value the rule book does not define (see Proj)
 PoptUniverse == {"a", "b", "c"}
 SubChoices == {"a", "b", "c", "d"}       \* the subproject's own (yielding) popt: initial choices (its option file is edited too)
 SubDefault == "d"                        \* its declared default, in every choice list the edits use
@@ -32,7 +48,7 @@ DlValues == {"shared", "static", "both"}
 DlDefault == "shared"
 XDefault == "xd"
 XValues == {"xv", ""}                    \* "" = the empty string, given explicitly (-Dxopt=)
-Keys == {"popt", "xopt", "dl", "subdl", "subpopt", "subflag", "level", "arr"}
+OldKeys == {"popt", "xopt", "dl", "subdl", "subpopt", "subflag", "level", "arr"}
 \* the array option `arr` (default ['x']); its value is written as comma-joined text: "" = the empty array (-Darr=)
 ArrDefault == "x"
 ArrValues == {"", "y"}
@@ -41,24 +57,82 @@ ArrValues == {"", "y"}
 LevelUniverse == {"2", "5", "8"}
 LevelDefault == "5"
 FlagParent == "false"                    \* the top-level flag option is never changed
+
+\* ---- deprecated / renamed options and the buildtype / debug pair --------------------------------
+\*   omode -> mode   combo (a b c)            oflag -> nflag   boolean
+\*   ostr  -> nstr   string                   oarr  -> narr    array (comma-joined text, "" = empty)
+\*   obool -> nfeat  boolean replaced by a feature whose value map turns true/false into enabled/disabled
+\*   marr   array, choices a b c, deprecated: {'a': 'c'}     dall  boolean, deprecated: true
+\*   dsome  array, choices a b,   deprecated: ['a']          bt -> dbg  buildtype / debug
+RenKeys == {"omode", "mode", "oflag", "nflag", "ostr", "nstr", "oarr", "narr", "obool", "nfeat", "marr", "dall", "dsome", "bt", "dbg"}
+ProjRenKeys == RenKeys \ {"bt", "dbg"}   \* declared in the top-level option file
+ObsRenKeys == RenKeys \ {"bt"}           \* (the value of buildtype itself after an explicit debug is C07's business)
+Keys == OldKeys \cup RenKeys
+TopKeys == {"popt", "xopt", "level", "arr"} \cup ProjRenKeys     \* keys of options the top-level option file declares
+\* replacement option -> the old name (for dbg: the option that also gives it)
+Master == [mode |-> "omode", nflag |-> "oflag", nstr |-> "ostr", narr |-> "oarr", nfeat |-> "obool", dbg |-> "bt"]
+Slaves == DOMAIN Master
+Masters == {Master[s] : s \in Slaves}
+SlaveOf(m) == CHOOSE s \in Slaves : Master[s] = m
+\* the defaults the option file declares: the old and the new name start with DIFFERENT values
+RenDefault(k) ==
+    CASE k = "omode" -> "a" [] k = "mode" -> "b" [] k = "oflag" -> "false" [] k = "nflag" -> "true"
+      [] k = "ostr" -> "s0" [] k = "nstr" -> "s1" [] k = "oarr" -> "x" [] k = "narr" -> "y"
+      [] k = "obool" -> "true" [] k = "nfeat" -> "auto" [] k = "marr" -> "b" [] k = "dall" -> "false"
+      [] k = "dsome" -> "b" [] k = "bt" -> "debug" [] k = "dbg" -> "true"
+\* the raw values the alphabets give on a command line
+RenValues(k) ==
+    CASE k \in {"omode", "mode"} -> {"a", "b", "c"}
+      [] k \in {"oflag", "nflag", "obool", "dall", "dbg"} -> {"true", "false"}
+      [] k = "ostr" -> {"s0", "s2"} [] k = "nstr" -> {"s1", "s2"}
+      [] k = "oarr" -> {"x", ""} [] k = "narr" -> {"y", ""}
+      [] k = "nfeat" -> {"true", "auto", "disabled"}
+      [] k \in {"marr", "dsome"} -> {"a", "a,b"}
+      [] k = "bt" -> {"release", "debugoptimized"}      \* (never the default "debug": see Enabled)
+\* deprecated: {old value: new value} - the value the option takes when the raw value is given
+MapValue(k, v) ==
+    CASE k = "nfeat" /\ v = "true" -> "enabled" [] k = "nfeat" /\ v = "false" -> "disabled"
+      [] k = "marr" /\ v = "a" -> "c" [] k = "marr" /\ v = "a,b" -> "c,b"
+      [] OTHER -> v
+\* what the replacement receives when the old name is given v ("assuming they accept the same values": the
+\* replacement's own value map applies); buildtype gives debug per the table of Builtin-options.md
+Forward(m, v) == IF m = "bt" THEN (IF v \in {"debug", "debugoptimized", "minsize"} THEN "true" ELSE "false")
+                 ELSE MapValue(SlaveOf(m), v)
+
 EmptyCmd == [k \in Keys |-> None]
+NoRen == [k \in RenKeys |-> None]
 
-\* the option file of the top-level project
-InitFile == [ch |-> {"a", "b", "c"}, def |-> "a", x |-> FALSE, lr |-> {"2", "5", "8"}, sch |-> SubChoices]
+\* the option file of the top-level project (present = FALSE: the file has been deleted; its former content is
+\* what a re-created file contains)
+InitFile == [ch |-> {"a", "b", "c"}, def |-> "a", x |-> FALSE, lr |-> {"2", "5", "8"}, sch |-> SubChoices, present |-> TRUE]
 
-NoDir == [exists |-> FALSE, v |-> None, ch |-> {}, x |-> None, dl |-> None, subdl |-> None, sp |-> None, sf |-> None, lv |-> None, lr |-> {}, ar |-> None, sch |-> {}, cmd |-> EmptyCmd]
+NoDir == [exists |-> FALSE, v |-> None, ch |-> {}, x |-> None, dl |-> None, subdl |-> None, sp |-> None, sf |-> None, lv |-> None, lr |-> {}, ar |-> None, sch |-> {},
+          o |-> NoRen, late |-> {}, orph |-> FALSE, cmd |-> EmptyCmd]
 
 \* ---- assignments -D ------------------------------------------------------------
-\* D: a function from a subset of Keys to values
-ValidFor(ch, hasx, lr, sch, D) ==
-    /\ ("popt" \in DOMAIN D => D["popt"] \in ch)
-    /\ ("level" \in DOMAIN D => D["level"] \in lr)
-    /\ ("arr" \in DOMAIN D => D["arr"] \in ArrValues)
-    /\ ("xopt" \in DOMAIN D => hasx)
+\* D: a function from a subset of Keys to values.  f: what is declared - the option file, or StoredDecl(st)
+ValidFor(f, D) ==
+    /\ ("popt" \in DOMAIN D => f.present /\ D["popt"] \in f.ch)
+    /\ ("level" \in DOMAIN D => f.present /\ D["level"] \in f.lr)
+    /\ ("arr" \in DOMAIN D => f.present /\ D["arr"] \in ArrValues)
+    /\ ("xopt" \in DOMAIN D => f.present /\ f.x)
     /\ ("dl" \in DOMAIN D => D["dl"] \in DlValues)
     /\ ("subdl" \in DOMAIN D => D["subdl"] \in DlValues)
-    /\ ("subpopt" \in DOMAIN D => D["subpopt"] \in sch)
+    /\ ("subpopt" \in DOMAIN D => D["subpopt"] \in f.sch)
     /\ ("subflag" \in DOMAIN D => D["subflag"] \in {"true", "false"})
+    /\ \A k \in RenKeys \cap DOMAIN D : (k \in ProjRenKeys => f.present) /\ D[k] \in RenValues(k)
+\* the declarations the stored configuration was last made with
+StoredDecl(st) == [ch |-> st.ch, x |-> st.x # None, lr |-> st.lr, sch |-> st.sch, present |-> st.ar # None]
+
+\* giving the old name gives the new name as well; a value given to both in one command: the replacement's own wins
+\* (the alphabets give one assignment per command)
+NewO(o, D) == [k \in RenKeys |->
+                 IF o[k] = None THEN None
+                 ELSE IF k \in DOMAIN D THEN MapValue(k, D[k])
+                 ELSE IF k \in Slaves /\ Master[k] \in DOMAIN D THEN Forward(Master[k], D[Master[k]])
+                 ELSE o[k]]
+\* the replacements given after their old name (only meaningful while both are recorded)
+NewLate(late, D) == (late \ {s \in Slaves : Master[s] \in DOMAIN D}) \cup (Slaves \cap DOMAIN D)
 
 Apply(st, D) ==
     [st EXCEPT !.v = IF "popt" \in DOMAIN D THEN D["popt"] ELSE @,
@@ -69,29 +143,63 @@ Apply(st, D) ==
                !.sf = IF "subflag" \in DOMAIN D THEN D["subflag"] ELSE @,
                !.lv = IF "level" \in DOMAIN D THEN D["level"] ELSE @,
                !.ar = IF "arr" \in DOMAIN D THEN D["arr"] ELSE @,
+               !.o = NewO(@, D),
+               !.late = NewLate(@, D),
                !.cmd = [k \in Keys |-> IF k \in DOMAIN D THEN D[k] ELSE @[k]]]
+
+\* configure -U of a per-subproject override
+Unset(st, k) == IF k = "subdl" THEN [st EXCEPT !.subdl = None, !.cmd["subdl"] = None]
+                ELSE IF k = "subflag" THEN [st EXCEPT !.sf = None, !.cmd["subflag"] = None]
+                ELSE [st EXCEPT !.sp = None, !.cmd["subpopt"] = None]
 
 CmdAsD(cmd) == [k \in {k \in Keys : cmd[k] # None} |-> cmd[k]]
 
-\* a configuration made from scratch: current defaults of the option file, then the given command line
-Fresh(file, cmd) ==
-    Apply([exists |-> TRUE, v |-> file.def, ch |-> file.ch, x |-> IF file.x THEN XDefault ELSE None,
-           dl |-> DlDefault, subdl |-> None, sp |-> None, sf |-> None, lv |-> LevelDefault, lr |-> file.lr, ar |-> ArrDefault, sch |-> file.sch, cmd |-> EmptyCmd], CmdAsD(cmd))
+\* a configuration made from scratch with the current defaults of the option file
+Defaults(file) ==
+    [exists |-> TRUE, v |-> IF file.present THEN file.def ELSE None, ch |-> IF file.present THEN file.ch ELSE {},
+     x |-> IF file.present /\ file.x THEN XDefault ELSE None,
+     dl |-> DlDefault, subdl |-> None, sp |-> None, sf |-> None, lv |-> IF file.present THEN LevelDefault ELSE None,
+     lr |-> IF file.present THEN file.lr ELSE {}, ar |-> IF file.present THEN ArrDefault ELSE None, sch |-> file.sch,
+     o |-> [k \in RenKeys |-> IF k \in ProjRenKeys /\ ~file.present THEN None ELSE RenDefault(k)], late |-> {},
+     orph |-> ~file.present, cmd |-> EmptyCmd]
 
-\* the option file is read again: a new option gets its default, a removed one vanishes, a changed choice
-\* list keeps the old value when still valid and otherwise falls back to the new default
+\* ... then the recorded command line, replayed in the order in which the user gave the values last: of a pair
+\* (old name, replacement) the one given later decides the replacement's value
+Fresh(file, cmd, late) ==
+    LET base == Defaults(file) IN
+    [Apply(base, CmdAsD(cmd)) EXCEPT
+        !.o = [k \in RenKeys |->
+                 IF base.o[k] = None THEN None
+                 ELSE IF k \in Slaves /\ cmd[Master[k]] # None /\ (cmd[k] = None \/ k \notin late) THEN Forward(Master[k], cmd[Master[k]])
+                 ELSE IF cmd[k] # None THEN MapValue(k, cmd[k])
+                 ELSE base.o[k]],
+        !.late = late]
+
+\* the option file is read again: a new option gets its default, a removed one vanishes (all of them when the file
+\* itself is gone), a changed choice list keeps the old value when still valid and otherwise falls back to the new default
 Sync(st, file) ==
+    IF ~file.present
+    THEN [st EXCEPT !.ch = {}, !.v = None, !.x = None, !.lr = {}, !.lv = None, !.ar = None, !.orph = TRUE,
+                    !.o = [k \in RenKeys |-> IF k \in ProjRenKeys THEN None ELSE @[k]],
+                    !.sch = file.sch,
+                    !.sp = IF st.sp = None \/ st.sp \in file.sch THEN st.sp ELSE SubDefault]
+    ELSE
     [st EXCEPT !.ch = file.ch,
-               !.v = IF file.ch = st.ch \/ st.v \in file.ch THEN st.v ELSE file.def,
+               !.v = IF st.v = None THEN file.def ELSE IF file.ch = st.ch \/ st.v \in file.ch THEN st.v ELSE file.def,
                !.x = IF ~file.x THEN None ELSE IF st.x = None THEN XDefault ELSE st.x,
                !.lr = file.lr,
-               !.lv = IF st.lv \in file.lr THEN st.lv ELSE LevelDefault,
+               !.lv = IF st.lv # None /\ st.lv \in file.lr THEN st.lv ELSE LevelDefault,
+               !.ar = IF st.ar = None THEN ArrDefault ELSE st.ar,
+               !.o = [k \in RenKeys |-> IF @[k] = None THEN RenDefault(k) ELSE @[k]],
                \* the subproject's option file: an explicit value the user gave the subproject stays explicit - kept when
                \* still a choice, else the subproject's new default; a yielding option keeps yielding
                !.sch = file.sch,
                !.sp = IF st.sp = None \/ st.sp \in file.sch THEN st.sp ELSE SubDefault]
 
-SameValues(s, t) == s.v = t.v /\ s.x = t.x /\ s.dl = t.dl /\ s.subdl = t.subdl /\ s.sp = t.sp /\ s.sf = t.sf /\ s.lv = t.lv /\ s.ar = t.ar
+SameValues(s, t) == s.v = t.v /\ s.x = t.x /\ s.dl = t.dl /\ s.subdl = t.subdl /\ s.sp = t.sp /\ s.sf = t.sf /\ s.lv = t.lv /\ s.ar = t.ar /\ s.o = t.o
+
+\* the replacements for which both names of the pair are recorded and would give different values
+Contested(s) == {k \in Slaves : s.cmd[k] # None /\ s.cmd[Master[k]] # None /\ Forward(Master[k], s.cmd[Master[k]]) # MapValue(k, s.cmd[k])}
 
 \* ---- events ----------------------------------------------------------------------
 \* [a, D, k, e, ok]: a = action name; D = assignments; k = key of -U; e = edit; ok = meant to succeed
@@ -105,58 +213,76 @@ EditFile(file, e) ==
       [] e.t = "default" -> [file EXCEPT !.def = e.def]
       [] e.t = "subchoices" -> [file EXCEPT !.sch = e.ch]
       [] e.t = "range" -> [file EXCEPT !.lr = e.ch]        \* e.ch: the probe values the new [min, max] admits
+      [] e.t = "delfile" -> [file EXCEPT !.present = FALSE] \* the option file of the top-level project is deleted
+      [] e.t = "addfile" -> [file EXCEPT !.present = TRUE]  \* ... and written again with what it held
 
 \* the recorded command line can be replayed on the current option file
-CmdFits(file, cmd) == ValidFor(file.ch, file.x, file.lr, file.sch, CmdAsD(cmd))
+CmdFits(file, cmd) == ValidFor(file, CmdAsD(cmd))
+
+\* giving buildtype the value it has is not generated (Builtin-options.md says it gives debug as well; the pinned
+\* behaviour - only a CHANGED buildtype does - belongs to C07)
+BtChanges(st, D) == "bt" \in DOMAIN D => D["bt"] # (IF st.exists THEN st.o["bt"] ELSE RenDefault("bt"))
+
+AssignActions == {"Setup", "Configure", "Reconfigure"}
+\* failing commands: invalid value / error() in a build file, or (..FailPost) a failing postconf script, which runs
+\* when everything else of the configuration has been done and written
+FailActions == {"SetupFail", "ConfigureFail", "ReconfigureFail", "ConfigureBad", "SetupFailPost", "ReconfigureFailPost"}
 
 \* is the event enabled (does the model generate it / accept it as meaningful) in this state?
 Enabled(file, st, ev) ==
-    CASE ev.a = "Setup"       -> ~st.exists /\ ev.ok /\ ValidFor(file.ch, file.x, file.lr, file.sch, ev.D)
+    CASE ev.a = "Setup"       -> ~st.exists /\ ev.ok /\ ValidFor(file, ev.D) /\ BtChanges(st, ev.D)
       [] ev.a = "SetupFail"   -> ~st.exists
+      [] ev.a = "SetupFailPost" -> ~st.exists /\ ValidFor(file, ev.D) /\ BtChanges(st, ev.D)
       \* (`meson configure` re-reads an edited option file before it looks at -D: validity is judged on the file.  It must
       \* not depend on whether an earlier no-op configure rewrote the stored configuration - the machine's one free choice)
-      [] ev.a = "Configure"   -> st.exists /\ ValidFor(file.ch, file.x, file.lr, file.sch, ev.D)
+      [] ev.a = "Configure"   -> st.exists /\ ValidFor(file, ev.D) /\ BtChanges(st, ev.D)
       [] ev.a = "ConfigureFail" -> st.exists
       \* a value outside the range the option file declares now: `meson configure` re-reads an edited option file
       \* before it looks at -D, so the value must be rejected
       [] ev.a = "ConfigureBad" -> st.exists /\ "level" \in DOMAIN ev.D /\ ev.D["level"] \notin file.lr
       [] ev.a = "ConfigureU"  -> st.exists /\ (ev.k \in {"subpopt", "subflag"} \/ (ev.k = "subdl" /\ st.subdl # None))
-      [] ev.a = "Reconfigure" -> st.exists /\ ValidFor(st.ch, st.x # None, st.lr, st.sch, ev.D) /\ ValidFor(file.ch, file.x, file.lr, file.sch, ev.D)
+      [] ev.a = "Reconfigure" -> st.exists /\ ValidFor(StoredDecl(st), ev.D) /\ ValidFor(file, ev.D) /\ BtChanges(st, ev.D)
       [] ev.a = "ReconfigureFail" -> st.exists
+      [] ev.a = "ReconfigureFailPost" -> st.exists /\ ValidFor(StoredDecl(st), ev.D) /\ ValidFor(file, ev.D) /\ BtChanges(st, ev.D)
+                                         /\ CmdFits(file, st.cmd)
       [] ev.a = "Wipe"        -> st.exists /\ CmdFits(file, st.cmd)
-      [] ev.a = "Edit"        -> ev.e.t # None /\ EditFile(file, ev.e) # file /\ EditFile(file, ev.e).def \in EditFile(file, ev.e).ch
+      [] ev.a = "Edit"        -> /\ ev.e.t # None /\ EditFile(file, ev.e) # file /\ EditFile(file, ev.e).def \in EditFile(file, ev.e).ch
+                                 /\ (ev.e.t # "addfile" => file.present)           \* a deleted file is not edited
+                                 \* (a recorded value of an option that disappears is the known finding `stale-x`)
+                                 /\ (ev.e.t = "delfile" => \A k \in TopKeys : st.cmd[k] = None)
       [] OTHER -> FALSE
 
 \* the set of allowed <<file', st'>> after the event
 Step(file, st, ev) ==
-    CASE ev.a = "Setup" -> {<<file, Apply(Fresh(file, EmptyCmd), ev.D)>>}
-      [] ev.a \in {"SetupFail", "ConfigureFail", "ReconfigureFail", "ConfigureBad"} -> {<<file, st>>}
+    CASE ev.a = "Setup" -> {<<file, Apply(Fresh(file, EmptyCmd, {}), ev.D)>>}
+      [] ev.a \in FailActions -> {<<file, st>>}
       [] ev.a = "Configure" ->
             LET sy == Sync(st, file)
                 ap == Apply(sy, ev.D)
-            IN {<<file, ap>>} \cup (IF SameValues(ap, sy) THEN {<<file, [st EXCEPT !.cmd = ap.cmd]>>} ELSE {})
+            IN {<<file, ap>>} \cup (IF SameValues(ap, sy) THEN {<<file, [st EXCEPT !.cmd = ap.cmd, !.late = ap.late]>>} ELSE {})
       [] ev.a = "ConfigureU" ->
             LET sy == Sync(st, file)
-                ap == IF ev.k = "subdl" THEN [sy EXCEPT !.subdl = None, !.cmd["subdl"] = None]
-                      ELSE IF ev.k = "subflag" THEN [sy EXCEPT !.sf = None, !.cmd["subflag"] = None]
-                      ELSE [sy EXCEPT !.sp = None, !.cmd["subpopt"] = None]
+                ap == Unset(sy, ev.k)
             IN {<<file, ap>>} \cup (IF SameValues(ap, sy) THEN {<<file, [st EXCEPT !.cmd = ap.cmd]>>} ELSE {})
       [] ev.a = "Reconfigure" -> {<<file, Apply(Sync(st, file), ev.D)>>}
-      [] ev.a = "Wipe" -> {<<file, Fresh(file, st.cmd)>>}
+      [] ev.a = "Wipe" -> {<<file, Fresh(file, st.cmd, st.late)>>}
       [] ev.a = "Edit" -> {<<EditFile(file, ev.e), st>>}
 
 \* ---- what an observer sees (meson introspect --buildoptions + effective subproject values) --------
+\* (what a yielding subproject option shows once its parent has vanished with the option file - st.orph, until the
+\* configuration is next made from scratch with the file in place - is not defined: Unknown matches every observation)
 Proj(st) == [exists |-> st.exists, v |-> st.v, ch |-> st.ch, x |-> st.x, dl |-> st.dl,
              subdl |-> IF st.subdl = None THEN st.dl ELSE st.subdl,
-             sp |-> IF st.sp = None THEN st.v ELSE st.sp,
-             sf |-> IF ~st.exists THEN None ELSE IF st.sf = None THEN FlagParent ELSE st.sf,
-             lv |-> st.lv, ar |-> st.ar, sch |-> st.sch, cmd |-> st.cmd]
+             sp |-> IF st.exists /\ (st.v = None \/ st.orph) THEN Unknown ELSE IF st.sp = None THEN st.v ELSE st.sp,
+             sf |-> IF ~st.exists THEN None ELSE IF st.v = None \/ st.orph THEN Unknown ELSE IF st.sf = None THEN FlagParent ELSE st.sf,
+             lv |-> st.lv, ar |-> st.ar, sch |-> st.sch, o |-> [k \in ObsRenKeys |-> st.o[k]], cmd |-> st.cmd]
 
 \* ---- event alphabets ---------------------------------------------------------------
 Single(k, v) == (k :> v)
 Empty == <<>>
 ChoiceEdits == { [t |-> "choices", ch |-> {"a", "b"}, def |-> "a"], [t |-> "choices", ch |-> {"b", "c"}, def |-> "b"],
                  [t |-> "choices", ch |-> {"a", "b", "c"}, def |-> "a"] }
+FileEdits == { [t |-> "delfile", ch |-> {}, def |-> None], [t |-> "addfile", ch |-> {}, def |-> None] }
 Edits == { [t |-> "addx", ch |-> {}, def |-> None], [t |-> "removex", ch |-> {}, def |-> None] } \cup ChoiceEdits
          \cup { [t |-> "default", ch |-> {}, def |-> "b"], [t |-> "default", ch |-> {}, def |-> "a"] }
          \cup { [t |-> "subchoices", ch |-> r, def |-> None] : r \in {{"a", "b", "d"}, {"a", "c", "d"}, {"a", "b", "c", "d"}} }
@@ -176,6 +302,27 @@ FullAlphabet ==
     \cup {Ev("ConfigureFail", D, None, NoEdit, FALSE) : D \in {Single("dl", "static"), Single("subdl", "both")}}
     \cup {Ev("ConfigureBad", Single("level", v), None, NoEdit, FALSE) : v \in LevelUniverse}
     \cup {Ev("ReconfigureFail", D, None, NoEdit, FALSE) : D \in {Empty, Single("popt", "b"), Single("dl", "both")}}
+
+\* the model-checking alphabet for the deprecated options, the order-dependent pairs, the late failures and the
+\* deleted option file: every single assignment of these keys
+AllRenD == UNION {{Single(k, v) : v \in RenValues(k)} : k \in RenKeys}
+FullRenAlphabet ==
+    {Ev("Setup", D, None, NoEdit, TRUE) : D \in {Empty, Single("popt", "c")} \cup {d \in AllRenD : DOMAIN d \subseteq Masters}}
+    \cup {Ev("Configure", D, None, NoEdit, TRUE) : D \in AllRenD \cup {Single("popt", "b"), Single("dl", "static")}}
+    \cup {Ev("Reconfigure", D, None, NoEdit, TRUE) : D \in {Empty} \cup AllRenD}
+    \cup {Ev("Wipe", Empty, None, NoEdit, TRUE)}
+    \cup {Ev("Edit", Empty, None, e, TRUE) : e \in FileEdits}
+    \cup {Ev("SetupFail", Empty, None, NoEdit, FALSE)}
+    \cup {Ev("SetupFailPost", D, None, NoEdit, FALSE) : D \in {Empty, Single("popt", "b"), Single("omode", "c")}}
+    \cup {Ev("ConfigureFail", D, None, NoEdit, FALSE) : D \in {Single("omode", "c"), Single("dbg", "false")}}
+    \cup {Ev("ReconfigureFail", D, None, NoEdit, FALSE) : D \in {Single("oflag", "true")}}
+    \cup {Ev("ReconfigureFailPost", D, None, NoEdit, FALSE) : D \in {Empty, Single("popt", "b"), Single("mode", "c"), Single("bt", "release")}}
+
+\* longer histories over one pair at a time (the model restricts a history to one pair): every value of both names
+PairAllD == {d \in AllRenD : DOMAIN d \subseteq Masters \cup Slaves}
+FullPairAlphabet ==
+    {Ev("Setup", D, None, NoEdit, TRUE) : D \in {Empty} \cup PairAllD} \cup {Ev("Configure", D, None, NoEdit, TRUE) : D \in PairAllD}
+    \cup {Ev("Reconfigure", D, None, NoEdit, TRUE) : D \in {Empty} \cup PairAllD} \cup {Ev("Wipe", Empty, None, NoEdit, TRUE)}
 
 \* the smaller alphabet whose histories are all replayed through the real CLI
 ReplayAlphabet ==
@@ -197,16 +344,58 @@ ReplayAlphabet ==
     \cup {Ev("ConfigureBad", Single("level", v), None, NoEdit, FALSE) : v \in {"2", "8"}}
     \cup {Ev("ReconfigureFail", Single("popt", "b"), None, NoEdit, FALSE)}
 
+\* the old name given the value it holds already (its default, or what an earlier command gave), the replacement
+\* given another value in between, each pair in both orders; the value maps; the forms that only warn
+PairD == {Single("omode", "a"), Single("omode", "c"), Single("mode", "b"),
+          Single("oflag", "false"), Single("oflag", "true"), Single("nflag", "false"),
+          Single("ostr", "s0"), Single("ostr", "s2"), Single("nstr", "s1"),
+          Single("oarr", "x"), Single("oarr", ""), Single("narr", "y"),
+          Single("obool", "true"), Single("obool", "false"), Single("nfeat", "auto"),
+          Single("bt", "release"), Single("bt", "debugoptimized"), Single("dbg", "true"), Single("dbg", "false")}
+\* histories of four events over the pairs alone: give, give the other, give the first again, wipe / reconfigure
+ReplayPairAlphabet ==
+    {Ev("Setup", D, None, NoEdit, TRUE) : D \in {Empty, Single("omode", "c"), Single("oflag", "true"), Single("ostr", "s2"), Single("oarr", ""),
+                                                   Single("obool", "false"), Single("bt", "release"), Single("dbg", "false")}}
+    \cup {Ev("Configure", D, None, NoEdit, TRUE) : D \in PairD}
+    \cup {Ev("Reconfigure", D, None, NoEdit, TRUE) : D \in {Empty, Single("omode", "c"), Single("ostr", "s2"), Single("bt", "release")}}
+    \cup {Ev("Wipe", Empty, None, NoEdit, TRUE)}
+\* histories of three events: the pairs together with value maps, warn-only forms, late failures, the deleted file
+ReplayRenAlphabet ==
+    {Ev("Setup", D, None, NoEdit, TRUE) : D \in {Empty, Single("omode", "c"), Single("nfeat", "true"), Single("marr", "a,b"), Single("popt", "b")}}
+    \cup {Ev("Configure", D, None, NoEdit, TRUE) :
+            D \in {Single("omode", "a"), Single("mode", "b"), Single("oflag", "false"), Single("ostr", "s0"), Single("oarr", "x"),
+                   Single("obool", "true"), Single("nfeat", "disabled"), Single("marr", "a"), Single("dall", "true"), Single("dsome", "a,b"),
+                   Single("bt", "release"), Single("dbg", "false"), Single("dl", "static")}}
+    \cup {Ev("Reconfigure", D, None, NoEdit, TRUE) : D \in {Empty, Single("oflag", "false"), Single("nfeat", "true"), Single("dl", "both")}}
+    \cup {Ev("Wipe", Empty, None, NoEdit, TRUE)}
+    \cup {Ev("Edit", Empty, None, e, TRUE) : e \in FileEdits}
+    \cup {Ev("SetupFail", Empty, None, NoEdit, FALSE)}
+    \cup {Ev("SetupFailPost", D, None, NoEdit, FALSE) : D \in {Empty, Single("popt", "b")}}
+    \cup {Ev("ConfigureFail", Single("omode", "c"), None, NoEdit, FALSE)}
+    \cup {Ev("ReconfigureFail", Single("oflag", "true"), None, NoEdit, FALSE)}
+    \cup {Ev("ReconfigureFailPost", D, None, NoEdit, FALSE) : D \in {Empty, Single("popt", "b"), Single("mode", "c")}}
+
 \* ---- declarative reading of a history --------------------------------------------------
 \* the last value the user gave for a key in a successful command (a later -U of the key cancels it)
 RECURSIVE LastGivenFrom(_, _, _)
 LastGivenFrom(h, key, n) ==
     IF n = 0 THEN None
     ELSE LET ev == h[n] IN
-         IF ev.ok /\ ev.a \in {"Setup", "Configure", "Reconfigure"} /\ key \in DOMAIN ev.D THEN ev.D[key]
+         IF ev.ok /\ ev.a \in AssignActions /\ key \in DOMAIN ev.D THEN ev.D[key]
          ELSE IF ev.a = "ConfigureU" /\ ev.k = key THEN None
          ELSE LastGivenFrom(h, key, n - 1)
 LastGiven(h, key) == LastGivenFrom(h, key, Len(h))
+
+\* the last value an option RECEIVED from the user: given under its own name (through its value map), or - a
+\* replacement option - under the old name
+RECURSIVE LastReceivedFrom(_, _, _)
+LastReceivedFrom(h, key, n) ==
+    IF n = 0 THEN None
+    ELSE LET ev == h[n] IN
+         IF ev.ok /\ ev.a \in AssignActions /\ key \in DOMAIN ev.D THEN MapValue(key, ev.D[key])
+         ELSE IF ev.ok /\ ev.a \in AssignActions /\ key \in Slaves /\ Master[key] \in DOMAIN ev.D THEN Forward(Master[key], ev.D[Master[key]])
+         ELSE LastReceivedFrom(h, key, n - 1)
+LastReceived(h, key) == LastReceivedFrom(h, key, Len(h))
 
 HasEdit(h, kinds) == \E n \in 1..Len(h) : h[n].a = "Edit" /\ h[n].e.t \in kinds
 =============================================================================
